@@ -191,15 +191,35 @@ fn format_list<T>(operands: &Vec<T>, separator: &str)
     return out;
 } // format_list()
 
+// Formats the operands of And / Or. An operand which is itself an And
+// or an Or is written between parentheses, so that the text denotes the
+// same grouping when it is parsed again. (A conjunction inside a
+// disjunction needs none: a, b; c)
+fn group_operands(operands: &Vec<Goal>, in_or: bool) -> Vec<String> {
+    let mut out: Vec<String> = vec![];
+    for op in operands {
+        match op {
+            Goal::OperatorGoal(Operator::And(_)) if !in_or => {
+                out.push(format!("({})", op));
+            },
+            Goal::OperatorGoal(Operator::Or(_)) => {
+                out.push(format!("({})", op));
+            },
+            _ => { out.push(op.to_string()); },
+        }
+    }
+    return out;
+} // group_operands()
+
 // Display trait, to display operators.
 impl fmt::Display for Operator {
     fn fmt(&self, f: &mut fmt::Formatter) -> fmt::Result {
         match &self {
             Operator::And(goals) => {
-                write!(f, "{}", format_list(goals, ", "))
+                write!(f, "{}", format_list(&group_operands(goals, false), ", "))
             },
             Operator::Or(goals) => {
-                write!(f, "{}", format_list(goals, "; "))
+                write!(f, "{}", format_list(&group_operands(goals, true), "; "))
             },
             Operator::Time(goals) => {
                 write!(f, "time({})", goals[0])
